@@ -1,6 +1,6 @@
 (* C01 — Accepted commands reach the wire once each, in order, unsubstituted. *)
 From Coq Require Import ZArith List Bool Lia Sorted.
-From PV Require Import sock.Sock sock.SockProofs.
+From PV Require Import sock.Sock sock.SockProofs sock.Drain sock.DrainProofs.
 Import ListNotations.
 Open Scope Z_scope.
 
@@ -78,3 +78,40 @@ Example C01_witness :
   s_pid (fst (run (init 250) c01_long)) = (250 + 300) mod 256.
 Proof. vm_compute. split; reflexivity. Qed.
 Print Assumptions C01_witness.
+
+(* ---- under transport back-pressure (coq/sock/Drain.v): writer.drain() blocks, other tasks keep calling
+   send(), the link may go down and come up (fault-free), for every such history: frames are handed to the
+   transport in acceptance order, hence each at most once, ... *)
+Theorem C01_backpressure_order : forall c ops s tr,
+  drun (dinit c) ops = Some (s, tr) -> StronglySorted lt (written tr) /\ NoDup (written tr).
+Proof. intros c ops s tr H. split; [exact (drain_order c ops s tr H)|exact (drain_once c ops s tr H)]. Qed.
+Print Assumptions C01_backpressure_order.
+
+(* ... nothing is transmitted that was not submitted, ... *)
+Theorem C01_backpressure_submitted : forall c ops s tr i t,
+  drun (dinit c) ops = Some (s, tr) -> In (DWrote i t) tr -> exists x, In (DAccept i x) tr.
+Proof. intros c ops s tr i t H W. destruct (drain_expiry c ops s tr i t H W) as [x [Hx _]]. now exists x. Qed.
+Print Assumptions C01_backpressure_submitted.
+
+(* ... and as soon as the client is connected with no drain loop suspended, every accepted message has been
+   transmitted, unless its lifetime had ended (the DDrop ghost event carries the instant: x <= t) *)
+Theorem C01_backpressure_complete : forall c ops s tr,
+  drun (dinit c) ops = Some (s, tr) -> d_conn s = true -> d_parked s = 0%nat ->
+  forall i x, In (DAccept i x) tr -> (exists t, In (DWrote i t) tr) \/ (exists t, In (DDrop i t) tr /\ x <= t).
+Proof. exact drain_complete. Qed.
+Print Assumptions C01_backpressure_complete.
+
+(* non-vacuity: the flush after a reconnection is suspended on the first frame; two more sends arrive (each
+   writes the oldest pending frame and suspends); one entry expires before the transport resumes *)
+Example C01_backpressure_witness :
+  let ops := [DSend 2 30720; DSend 0 1024; DSend 2 30720; DBp true; DUp; DSend 2 30720; DAdv 2000; DSend 2 30720; DBp false] in
+  match drun (dinit false) ops with
+  | Some (s, tr) => written tr = [0; 1; 2; 3; 4]%nat /\ d_parked s = 0%nat /\ d_queue s = []
+  | None => False
+  end /\
+  match drun (dinit false) [DSend 2 30720; DSend 0 1024; DBp true; DUp; DAdv 2000; DBp false] with
+  | Some (s, tr) => written tr = [0%nat] /\ In (DDrop 1 2000) tr
+  | None => False
+  end.
+Proof. vm_compute. repeat split; try reflexivity. do 3 right. left. reflexivity. Qed.
+Print Assumptions C01_backpressure_witness.
